@@ -1,6 +1,6 @@
 ---------------------------- MODULE Conf_Serpent ----------------------------
 EXTENDS Serpent, Json, IOUtils
-VARIABLES l, inst
+VARIABLES tpos, inst
 Rec == ndJsonDeserialize(IOEnv.TRACE)
 OSched(t, k, x) == SerpentSched(t, k, x)
 OEnc(ks, b) == SerpentEnc(ks, b)
